@@ -17,6 +17,8 @@ defaults of those positions (the line denotes the same instruction); anything th
 defaulted or replaced is a failure with signature  C01|<line class>|<what was lost>.
 (Symmetrically, trailing parameters of the input that ARE the defaults may be left out by the printer.)
 Files the parser does not get through (property C02's business) are skipped and counted.
+One generated file in ten (and one fixed case) is read by a Shelxfile object that has read another complete file before
+(`case['reuse']`): what the first file left behind (END seen, PART/AFIX/RESI, WGHT) must not show in the second.
 """
 import difflib
 import re
@@ -326,11 +328,19 @@ def tmpdir():
     return Path(TMP.name)
 
 
+PRELUDE = '\n'.join(['TITL read before', 'CELL 0.71073 9.1 9.2 9.3 90 101.5 90', 'ZERR 2 0.001 0.001 0.001 0 0.01 0', 'LATT 2',
+                     'SYMM -X, 1/2+Y, 1/2-Z', 'SFAC C N', 'UNIT 8 2', 'L.S. 4', 'WGHT 0.07 1.5', 'FVAR 0.25 0.6',
+                     'PART 1 21', 'N1 2 0.31 0.32 0.33 21.0 0.041', 'PART 0', 'RESI 3 ABC', 'AFIX 66',
+                     'C7 1 0.41 0.42 0.43 11.0 0.031 0.032 0.033 0.001 0.002 0.003', 'AFIX 0', 'RESI 0', 'HKLF 4', 'END',
+                     'WGHT 0.06 1.2', 'Q1 1 0.1 0.2 0.3 11.0 0.05 1.5']) + '\n'
+
+
 def roundtrip(text, case=None):
     """(written text or None, complete?, error-line keyword).
     case['via']: 'string' (read_string), 'file' (read_file + write to another file), 'inplace' (read_file +
     write_shelx_file() without a name: back to the file that was read); case['includes']: {file name: lines} written
-    next to the res file for its '+filename' lines (a name without an entry is a missing include file)."""
+    next to the res file for its '+filename' lines (a name without an entry is a missing include file);
+    case['reuse']: the Shelxfile object has read another file (PRELUDE) before."""
     import shutil
     from shelxfile import Shelxfile
     case = case or {}
@@ -340,6 +350,9 @@ def roundtrip(text, case=None):
     shutil.rmtree(d, ignore_errors=True)
     d.mkdir()
     p = d / 'out.res'
+    if case.get('reuse'):
+        # the object has read another complete file (with END and a WGHT line behind it) before: reading re-initialises it
+        shx.read_string(PRELUDE)
     if via == 'string' and not case.get('includes'):
         shx.read_string(text)
     else:
@@ -542,7 +555,7 @@ def evaluate(ctx, cases, stream=None):
                          (a['kind'] == 'atom' and (a['afix'][:1] not in ((0.0,), ()) or a['part'][:1] not in ((0.0,), ())))
                          or (a['kind'] == 'sfac' and any(e[0] == 'explicit' for e in a['entries'])) for a in cin)
         tags += ['via:' + case.get('via', 'string')] + (['includes:%d' % len(case['includes'])] if case.get('includes') else [])
-        ctx.count(['c01', case['lines'], case.get('via'), case.get('includes')], nontrivial=nontrivial,
+        ctx.count(['c01', case['lines'], case.get('via'), case.get('includes'), case.get('reuse')], nontrivial=nontrivial,
                   tags=tags + ['class:' + c for c in classes] + (['wrapped'] if any(l.rstrip().endswith('=') for l in case['lines']) else []),
                   sample=dict(stream='roundtrip', input=case['lines'][:12], written=out.splitlines()[:12]))
         seen = set()
@@ -914,6 +927,14 @@ FIXED_CASES = [
                 'SFAC C', 'UNIT 4', 'SIZE 0.1 0.2', 'ACTA NOHKL', 'OMIT -3 =', '   55.5', 'TEMP -120', 'FVAR 1.0',
                 'C1 1 0.123456 0.2 0.3 11.0 0.05', 'HKLF 4', 'END',
                 'Q1 1 0.123456 0.2345 0.3456 11.00000 0.05 1.234', 'Q2 1 0.1 0.2 0.3 11.00000 0.04 1.234'], tags=['fixed']),
+    # a weighting scheme whose c..f are NEAR the defaults but not the defaults: all six parameters are content
+    dict(lines=['TITL w3', 'CELL 0.71073 10 11 12 90 95 90', 'ZERR 4 0.001 0.001 0.001 0 0.01 0', 'LATT -1',
+                'SFAC C', 'UNIT 4', 'WGHT 0.0346 0.6436 0 0 0 0.3333', 'FVAR 1.0', 'C1 1 0.1 0.2 0.3 11.0 0.05', 'HKLF 4', 'END',
+                'WGHT 0.05 0.2 0.00005 0 0 0.33333'], tags=['fixed']),
+    # the same object reads a second file: nothing of the first one (END seen, its WGHT, its PART/AFIX/RESI) may show
+    dict(lines=['TITL w4', 'CELL 0.71073 10 11 12 90 95 90', 'ZERR 4 0.001 0.001 0.001 0 0.01 0', 'LATT -1',
+                'SFAC C H', 'UNIT 4 4', 'FVAR 1.0', 'C1 1 0.123456 0.2 0.3 11.0 0.05',
+                'C2 1 0.15 0.25 0.35 11.0 0.02 0.03 0.04 0.001 0.002 0.003', 'HKLF 4', 'END'], reuse=True, tags=['fixed']),
 ]
 
 
@@ -922,7 +943,8 @@ def run(ctx):
                 'instruction forms from the full syntax table, 1..99 free variables over several FVAR lines, RESI/PART/AFIX '
                 'blocks with iso/aniso atoms and riding hydrogens, HKLF forms, WGHT + Q-peaks after END, legal wrapping; read through '
                 'read_string, or read_file from disk (write to another file or in place), with flat/nested/missing +filename include '
-                'files whose lines partly repeat the text of res-file lines) plus one '
+                'files whose lines partly repeat the text of res-file lines; one file in ten by an object that has read another '
+                'complete file before) plus one '
                 'file per (keyword, prefix form); distinct by the text; non-trivial = contains an instruction with a printer '
                 'override (SIZE ACTA STIR WGHT SYMM UNIT FVAR), an explicit SFAC entry, or an atom inside PART/AFIX')
     ctx.assumptions = ['parse reached the end of the file (else skipped and counted: C02)',
@@ -958,6 +980,9 @@ def run(ctx):
             c = add_includes(rng, c, pool)
         elif r < 0.3:
             c['via'] = rng.choice(['file', 'inplace'])          # the second entry point, without include files
+        if rng.random() < 0.1:
+            c['reuse'] = True                                   # an object that has read another file before
+            c['tags'] = c.get('tags', []) + ['reused-object']
         batch.append(c)
         if len(batch) >= 200:
             evaluate(ctx, batch)
